@@ -40,7 +40,7 @@ func c02RuleAlphabet() []c02RuleVar {
 	out = append(out, c02RuleVar{kind: "pat", signal: "next@match"}, c02RuleVar{kind: "pat", signal: "readv"})
 	// next raised while the PATTERN of a rule is evaluated (in a callee): the element is abandoned, later rules do not see it
 	out = append(out, c02RuleVar{kind: "pat", pattern: 4})
-	out = append(out, c02RuleVar{kind: "pat", pattern: 3, noBody: true})
+	out = append(out, c02RuleVar{kind: "pat", pattern: 3, noBody: true}, c02RuleVar{kind: "pat", pattern: 1, noBody: true})
 	// a rule that changes the current root / element: roots selected by different selectors, and ENDFILE's view, must not leak into each other
 	out = append(out, c02RuleVar{kind: "pat", signal: "mutate"})
 	return out
@@ -51,7 +51,7 @@ func (r c02RuleVar) String() string {
 	if r.kind == "pat" {
 		s = []string{"{}", "true{}", "false{}", "$>1{}", "nxp($){}"}[r.pattern]
 		if r.noBody {
-			s = "$>1"
+			s = []string{"", "true", "", "$>1"}[r.pattern]
 		}
 	}
 	if r.signal == "mutate" {
@@ -138,7 +138,7 @@ var c02Roots = []string{`[]`, `[1]`, `[1,2]`, `{"a":[3,4]}`, `5`, `null`}
 func c02FileContents() []string {
 	out := []string{""}
 	out = append(out, c02Roots...)
-	out = append(out, `[1,2] 5`, "5\n[1]", `[] [1,2]`, `{"a":[3,4]}[1]`, `null null`, `[1] {"a":[3,4]}`)
+	out = append(out, `[1,2] 5`, "5\n[1]", `[] [1,2]`, `{"a":[3,4]}[1]`, `null null`, `[1] {"a":[3,4]}`, `["100% %s",{"k%v":"%d\\n"}]`)
 	return out
 }
 
@@ -278,8 +278,8 @@ func init() {
 	n := len(alpha)
 	fw.Register(addTok(tokFramesC02, &fw.Prop{
 		ID: "C02",
-		Rule: "rule sequences over 32 rule variants (BEGIN/END/BEGINFILE/ENDFILE with nothing, exit or next; pattern-less, true, false and $>1 pattern rules with nothing, next or exit; next / exit raised in a callee inside a print list or an array literal; next raised by a callee while a rule's pattern is evaluated; next inside the block body of a binding match case and a rule that reads the bound name as a global; a body-less pattern rule, a rule that mutates $), every body printing its rule number, $, $file (and $index when every root is an array); " +
-			"(A) all sequences of <= N rules on three rich configurations, (B) 16 fixed rich programs on all 915 configurations (0-2 files x 13 file contents incl. empty, two values and all root shapes x 5 selector lists), (C) all sequences of <= M rules on all configurations; " +
+		Rule: "rule sequences over 33 rule variants (BEGIN/END/BEGINFILE/ENDFILE with nothing, exit or next; pattern-less, true, false and $>1 pattern rules with nothing, next or exit; next / exit raised in a callee inside a print list or an array literal; next raised by a callee while a rule's pattern is evaluated; next inside the block body of a binding match case and a rule that reads the bound name as a global; a body-less pattern rule, a rule that mutates $), every body printing its rule number, $, $file (and $index when every root is an array); " +
+			"(A) all sequences of <= N rules on three rich configurations, (B) 16 fixed rich programs on all 915 configurations (0-2 files x 14 file contents incl. empty, two values and all root shapes x 5 selector lists), (C) all sequences of <= M rules on all configurations; " +
 			"oracle: the schedule model of DESIGN.md 3.13 (exact stdout, outcome and JSON output); a state is the order in which rule kinds fired; non-trivial = same",
 		Plan: func(t fw.Tier) int { return n*n + len(c02Configs()) },
 		Bound: func(t fw.Tier) string {
